@@ -4,7 +4,7 @@ import common
 
 LEAN_MODULES = ['OpusProps.C17']
 GEN = ['CeltTables', 'SilkIcdf']
-SOURCES = ['celt/cwrs.c', 'celt/celt_decoder.c', 'celt/celt_encoder.c', 'celt/cwrs.h', 'celt/laplace.c', 'celt/laplace.h', 'celt/quant_bands.c', 'celt/rate.c',
+SOURCES = ['celt/cwrs.c', 'celt/celt.c', 'celt/modes.c', 'celt/celt_decoder.c', 'celt/celt_encoder.c', 'celt/cwrs.h', 'celt/laplace.c', 'celt/laplace.h', 'celt/quant_bands.c', 'celt/rate.c',
            'celt/rate.h', 'celt/vq.c', 'celt/celt.h', 'celt/modes.c', 'celt/static_modes_float.h', 'celt/entcode.h',
            'silk/tables_LTP.c', 'silk/tables_NLSF_CB_NB_MB.c', 'silk/tables_NLSF_CB_WB.c', 'silk/tables_gain.c',
            'silk/tables_other.c', 'silk/tables_pitch_lag.c', 'silk/tables_pulses_per_block.c', 'silk/tables.h',
@@ -61,7 +61,8 @@ LEVEL_NOTE = ('trusted: Lean kernel; the extractors tools/extract/CeltTables.c, 
 TECHNIQUE = 'Lean 4 theorems (induction + decide on regenerated tables) + table regeneration + differential correspondence + witness search'
 
 
-WRAP = ['-Wl,--wrap=ec_enc_icdf', '-Wl,--wrap=ec_dec_icdf']
+WRAP = ['-Wl,--wrap=ec_enc_icdf', '-Wl,--wrap=ec_dec_icdf', '-Wl,--wrap=clt_compute_allocation', '-Wl,--wrap=ec_enc_bit_logp',
+        '-Wl,--wrap=ec_dec_bit_logp', '-Wl,--wrap=ec_enc_uint', '-Wl,--wrap=ec_dec_uint']
 
 
 def _harness(ctx, name, variant, **kw):
@@ -98,6 +99,9 @@ def ties(ctx):
     jobs.append(('laplace', [hl, 'tie', level, str(ctx.seed)]))
     hsites = _harness(ctx, 'c17_sites', 'plain', opt='-O2', extra=WRAP)
     jobs.append(('icdf-sites', [hsites, 'tie', str(ctx.seed), '30' if ctx.quick else '200']))
+    ha = _harness(ctx, 'c17_alloc', 'san')
+    jobs.append(('alloc', [ha, 'tie', level, str(ctx.seed)]))
+    jobs.append(('alloc-real-frames', [hsites, 'alloc', str(ctx.seed), '30' if ctx.quick else '200']))
     with concurrent.futures.ThreadPoolExecutor(max_workers=5) as ex:   # shared machine: at most 5 harness|driver pipelines
         futs = [ex.submit(_run_tie, name, cmd, 6000) for name, cmd in jobs]
         out = [f.result() for f in futs]
@@ -220,12 +224,14 @@ def search(ctx):
     hl = _harness(ctx, 'c17_laplace', 'plain', opt='-O2')
     hsites = _harness(ctx, 'c17_sites', 'plain', opt='-O2', extra=WRAP)
     hcaps = _harness(ctx, 'c17_caps', 'plain', opt='-O1')
-    with concurrent.futures.ThreadPoolExecutor(max_workers=4) as ex:
+    halloc = _harness(ctx, 'c17_alloc', 'plain', opt='-O2')
+    with concurrent.futures.ThreadPoolExecutor(max_workers=5) as ex:
+        f5 = ex.submit(common.sh, [halloc, 'search', level, str(ctx.seed)], None, 3000)
         f4 = ex.submit(common.sh, [hcaps], None, 600)
         f1 = ex.submit(common.sh, [hs, level, str(ctx.seed)], None, 3000)
         f2 = ex.submit(common.sh, [hl, 'search', level, str(ctx.seed)], None, 3000)
         f3 = ex.submit(common.sh, [hsites, 'search', str(ctx.seed), '30' if ctx.quick else '200'], None, 3000)
-        for name, f in (('c17_search', f1), ('c17_laplace search', f2), ('c17_sites search', f3), ('c17_caps', f4)):
+        for name, f in (('c17_search', f1), ('c17_laplace search', f2), ('c17_sites search', f3), ('c17_caps', f4), ('c17_alloc search', f5)):
             rc, out = f.result()
             _parse(out, res)
             if rc != 0 or not re.search(r'^S cases=', out, re.M):
